@@ -221,6 +221,43 @@ fn check_script(rep: &mut Report, script: &[String], property: Option<&str>, dir
                         }
                         Err(m) => rep.fail("panic", "C05/include/reload-panics", ctx.clone(), "the store loads", &m),
                     }
+                    // ---- the store is changed after it was saved, and saved again: the stand-off files must follow
+                    let mut g2 = Gen::new(0x5eed_0000 + i as u64);
+                    g2.rich = true;
+                    g2.force_ids = true;
+                    let mut tail: Vec<String> = vec![];
+                    for _ in 0..40 {
+                        if tail.len() >= 1 + (i % 3) { break; }
+                        let op = g2.op();
+                        if op.starts_with("st rm") || op.starts_with("st adddata") || op.starts_with("st annot") {
+                            let r = crate::fam::store::exec_on(store, &op);
+                            if r.starts_with("ok") { tail.push(op); }
+                        }
+                    }
+                    if !tail.is_empty() {
+                        rep.count("json:include:save-change-save");
+                        for t in &tail { rep.count(&format!("json:include:tail:{}", t.split(' ').nth(1).unwrap_or("?"))); }
+                        let mut ctx2 = ctx.clone();
+                        ctx2.push("-- saved with stand-off files, then: --".into());
+                        ctx2.extend(tail.iter().cloned());
+                        let before2 = canon(store, false);
+                        let w = guarded(std::panic::AssertUnwindSafe(|| store.to_file(&p)));
+                        if !matches!(w, Ok(Ok(()))) {
+                            rep.fail(if w.is_err() { "panic" } else { "oracle" }, "C05/include/second-save-fails", ctx2.clone(), "written", &format!("{:?}", w.map(|r| r.map_err(|e| format!("{}", e)))));
+                        } else {
+                            match guarded(std::panic::AssertUnwindSafe(|| AnnotationStore::from_file(&p, Config::default()))) {
+                                Ok(Ok(st3)) => {
+                                    let after = canon(&st3, false);
+                                    if after != before2 {
+                                        let (x, y) = first_diff(&before2, &after);
+                                        rep.fail("oracle", &format!("C05/include/stale-after-second-save/{}", class_of(if x == "<missing>" { &y } else { &x })), ctx2.clone(), &x, &y);
+                                    }
+                                }
+                                Ok(Err(e)) => { let msg = format!("{}", e); if !msg.contains("No such file") { rep.fail("oracle", "C05/include/reload-after-second-save-fails", ctx2.clone(), "the store loads", &msg.chars().take(300).collect::<String>()); } }
+                                Err(m) => rep.fail("panic", "C05/include/reload-panics", ctx2.clone(), "the store loads", &m),
+                            }
+                        }
+                    }
                 }
             }
             std::fs::remove_dir_all(&sub).ok();
@@ -352,7 +389,7 @@ pub fn run(opts: &Opts) -> Report {
     let mut rep = Report::new(
         "serial",
         "stores reached by seeded operation histories of the store family (gaps from removals, id-less items, every selector kind, end-aligned and relative offsets, complex selectors, typed values); \
-         each is written and read back as STAM JSON (pretty and compact; inline), CBOR and STAM CSV; compared through a handle-independent canonical form (JSON/CSV) or the full observation + raw index dumps (CBOR); \
+         each is written and read back as STAM JSON (pretty and compact; inline; every third store also with stand-off @include files for half of its resources and datasets, saved, changed by one to three further operations and saved again), CBOR and STAM CSV; compared through a handle-independent canonical form (JSON/CSV) or the full observation + raw index dumps (CBOR); \
          non-trivial = stores with at least 3 annotations and one removal; distinct = distinct scripts",
     );
     let property = opts.property.as_deref();
